@@ -335,20 +335,29 @@ def e_cleanup(ctx):
               "`%s` removes a flow's entry from state.flow_id_states after idle time: code that tests `flow_id in state.flow_id_states` (e.g. the flow-exists system actions) answers differently once more than the clean-up age has elapsed" % first_line(delkeys[0]),
               line=(delkeys[0].lineno if delkeys else fn.lineno))
     # candidates: done AND old AND activated == 0
-    coll = [n for n in ast.walk(fn) if isinstance(n, ast.If) and any("append(" in src(s) for s in n.body) and "_is_done_flow" in src(n.test)]
+    from ._railrules import cleanup_candidates
+    coll = cleanup_candidates(fn)
     ok = bool(coll)
     if ok:
-        ts = re.sub(r"\s+", " ", src(coll[0].test))
-        ok = isinstance(coll[0].test, ast.BoolOp) and isinstance(coll[0].test.op, ast.And) and ".activated == 0" in ts and "timedelta(" in ts and "status_updated" in ts
+        conj = [re.sub(r"\s+", " ", src(c)) for c in coll[0][1]]
+        protects = any(isinstance(i_, ast.If) and re.search(r"parent_uid\s+in\s+\w+", src(i_.test)) and any(
+            isinstance(c_, ast.Call) and isinstance(c_.func, ast.Attribute) and c_.func.attr in ("discard", "remove") and isinstance(c_.func.value, ast.Name) for c_ in ast.walk(i_)) for i_ in ast.walk(fn))
+        ok = any("_is_done_flow" in c for c in conj) and any("timedelta(" in c and "status_updated" in c for c in conj) and (any(".activated == 0" in c for c in conj) or protects)
     ctx.check("C11.e.cleanup", SM, "_clean_up_state", "candidate test", ok,
-              "only instances that are done AND older than the age limit AND not activated are collected for deletion", line=(coll[0].lineno if coll else fn.lineno))
+              "only instances that are done AND older than the age limit (AND not activated / not a parent of a kept instance) are collected for deletion", line=(coll[0][0].lineno if coll else fn.lineno))
     # actions rebuilt only from the remaining instances
     assigns = [s for s in fn.body if isinstance(s, ast.Assign) and src(s.targets[0]) == "state.actions"]
     ok = len(assigns) == 1 and isinstance(assigns[0].value, ast.Name)
     if ok:
         v = assigns[0].value.id
-        fills = [n for n in ast.walk(fn) if isinstance(n, ast.For) and "state.flow_states.values()" in src(n.iter)
-                 and any(isinstance(c, ast.Call) and src(c.func) == "%s.update" % v and "state.actions[" in src(c) for c in ast.walk(n))
+        def _fills(n):
+            for c in ast.walk(n):
+                if isinstance(c, ast.Call) and src(c.func) == "%s.update" % v and "state.actions[" in src(c):
+                    return True
+                if isinstance(c, ast.Assign) and isinstance(c.targets[0], ast.Subscript) and src(c.targets[0].value) == v and "state.actions[" in src(c.value):
+                    return True
+            return False
+        fills = [n for n in ast.walk(fn) if isinstance(n, ast.For) and "state.flow_states.values()" in src(n.iter) and _fills(n)
                  and any(isinstance(f2, ast.For) and ".action_uids" in src(f2.iter) for f2 in ast.walk(n))]
         last_del = max([d.line for d in dels] or [0])
         ok = bool(fills) and fills[0].lineno > last_del
